@@ -32,6 +32,8 @@ def worktree(name, patch=None):
     os.makedirs(SCRATCH, exist_ok=True)
     rc, out = sh(["git", "-C", "/repo", "worktree", "add", "--detach", d, "HEAD"])
     assert rc == 0, out
+    if os.path.exists("/repo/Cargo.lock") and not os.path.exists(os.path.join(d, "Cargo.lock")):
+        shutil.copy("/repo/Cargo.lock", os.path.join(d, "Cargo.lock"))   # untracked in the repository; pins the offline dependency set
     if patch:
         rc, out = sh(["git", "apply", patch], cwd=d)
         assert rc == 0, "patch does not apply: " + out
